@@ -186,8 +186,10 @@ PROPS = {
                     "Elements stored by push and by index assignment are promoted copies whatever their type (Verus, unit store_sites: "
                     "eval_array_member_call_mut, assign_index), so an element never shares frame storage with the expression that produced it; "
                     "Value::clone_into and Value::promote rebuild an array's buffer in the target arena and every element recursively (Verus, unit "
-                    "residence, region model: fresh_in / outlives hold for the array storage and for each element)."),
-        "not_covered": ("byte-level separation of array buffers (the region model says WHICH arena a buffer lives in, not its address), which variable an index chain resolves to (get_mutable_array / flatten_index_target), "
+                    "residence, region model: fresh_in / outlives hold for the array storage and for each element).  Which array an index chain mutates "
+                    "(Verus, unit index_target: the real Runtime::flatten_index_target over the real Expr enum): the returned base is the Var node the "
+                    "chain is rooted in -- the node its resolved binding is looked up through -- with that variable's name and one index per level."),
+        "not_covered": ("byte-level separation of array buffers (the region model says WHICH arena a buffer lives in, not its address), the walk down the evaluated indices in get_mutable_array / assign_index, "
                         "pop/reverse, call and return paths: values read back "
                         "from arena memory make CBMC explore every Value variant and do not terminate (> 5 min per harness)."),
         "trusted_base": [KANI_TRUST, OS_TRUST, "PoolSet contracts (C12)"],
@@ -226,7 +228,7 @@ PROPS = {
                     "scope's latest declaration / the innermost defining block.  DECLARATION (Verus, unit resolver_assign: the Stmt::Assign arm of "
                     "Resolver::check_stmt over a ghost record of the current scope): the initializer of `make x get e` is resolved and typed BEFORE "
                     "x is (re)declared, so `make x get x add 1` reads the outer x; afterwards the entry a later use of x sees is the last one and "
-                    "carries e's type; no other name's entry changes."),
+                    "carries e's type; no other name's entry changes.  Index chains (unit index_target): `a[i][j]` resolves through the Var node it is rooted in."),
         "not_covered": ("that resolver ids and the dynamic scope search compose to lexical scoping under recursion (needs an invariant "
                         "relating the activation stack to the scope tree across eval_function_call), argument evaluation order, "
                         "per-block predeclaration, assign/define_bound_local (Value's recursive drop glue explodes in CBMC), function tables (user_call_callee, function_by_body)."),
